@@ -3,7 +3,7 @@ package main
 // C09: runs a history on the envelope machine of c10.go, then presents the resulting envelope,
 // once per listed key (-1 = no key), to every verification entry point:
 //
-//   c09 <fx> <base> ( op ... ) ( key ... ) -> ( ( x<validate> x<lib> x<cli> x<bulk> x<http> ) ... )
+//   c09 <fx> <base> ( op ... ) ( key ... ) -> ( ( x<validate> x<lib> x<cli> x<bulk> x<http> ) ... ) ( x<op outcome> ... )
 //
 //   validate  Envelope.Validate()                                      (library)
 //   lib       Envelope.Verify(key)                                     (library)
@@ -283,8 +283,9 @@ func init() {
 		}
 		c09.setup()
 		m := newEnvMachine(args[1].Int())
+		outs := []V{}
 		for _, op := range args[2].L {
-			m.apply(op)
+			outs = append(outs, VS(m.apply(op)))
 		}
 		data, merr := json.Marshal(m.env)
 		out := []V{}
@@ -303,7 +304,7 @@ func init() {
 			}
 			out = append(out, VL(VS(val), VS(lib), VS(cli), VS(bulk), VS(web)))
 		}
-		return []V{VL(out...)}
+		return []V{VL(out...), VL(outs...)}
 	})
 	// c09info: how the entry points are reached in this process (for the evidence file)
 	register("c09info", func(args []V) []V {
